@@ -354,6 +354,159 @@ Print Assumptions libmol_ecp_never_read_back.
 Example libmol_example : lmol_example_stmt.
 Proof. exact LibmolSpec.lmol_example. Qed.
 
+(* ---- CP2K (Model/Cp2k.v, Model/Cp2kEcp.v).  The writer only sorts; fused shells and general contractions are printed as they are and a fused shell comes back as one shell per momentum.  The basis name is part of the text and the reader accepts only names of a certain shape (117 of the 748 store names are refused, e.g. 6-31G: cp2k_roundtrip_name_631g); the writer emits an ECP section that the reader cannot read: EVERY text with an ECP is refused (cp2k_all_unreadable). ---- *)
+From BSE Require Import Model.Cp2k Proofs.Cp2kDefs Model.Cp2kEcp Proofs.Cp2kEcpDefs.
+From BSE Require Proofs.Cp2kSpec Proofs.Cp2kEcpSpec.
+
+Theorem cp2k_write_total : cp2k_write_total_stmt.
+Proof. exact Cp2kSpec.cp2k_write_total. Qed.
+Print Assumptions cp2k_write_total.
+
+Theorem cp2k_roundtrip : cp2k_roundtrip_stmt.
+Proof. exact Cp2kSpec.cp2k_roundtrip_exact. Qed.
+Print Assumptions cp2k_roundtrip.
+
+Theorem cp2k_no_number_lost : cp2k_no_number_lost_stmt.
+Proof. exact Cp2kSpec.cp2k_no_number_lost. Qed.
+Print Assumptions cp2k_no_number_lost.
+
+Theorem cp2k_name_6_31g_refused : cp2k_roundtrip_name_631g_stmt.
+Proof. exact Cp2kSpec.cp2k_roundtrip_name_631g. Qed.
+Print Assumptions cp2k_name_6_31g_refused.
+
+Theorem cp2k_fused_momenta_swapped : cp2k_roundtrip_swapped_stmt.
+Proof. exact Cp2kSpec.cp2k_roundtrip_swapped. Qed.
+Print Assumptions cp2k_fused_momenta_swapped.
+
+Theorem cp2k_ecp_files_unreadable : cp2k_all_unreadable_stmt.
+Proof. exact Cp2kEcpSpec.cp2k_all_unreadable. Qed.
+Print Assumptions cp2k_ecp_files_unreadable.
+
+Theorem cp2k_ecp_no_number_lost : cp2k_ecp_no_number_lost_stmt.
+Proof. exact Cp2kEcpSpec.cp2k_ecp_no_number_lost. Qed.
+Print Assumptions cp2k_ecp_no_number_lost.
+
+Example cp2k_example : cp2k_example_stmt.
+Proof. exact Cp2kSpec.cp2k_example. Qed.
+
+Example cp2k_ecp_example : cp2k_all_example_stmt.
+Proof. exact Cp2kEcpSpec.cp2k_all_example. Qed.
+
+(* ---- CFOUR / GENBAS (Model/Genbas.v, Model/GenbasEcp.v).  The electron part round-trips for every momentum; name and description are part of the text: a description starting with # or ! or looking like an ECP header makes the text unreadable (c4_roundtrip_desc_hash ...).  With ECPs the whole-file round trip is proved on instances only (c4ecp_example, c4ecp_range); a basis with ECPs only cannot be read back (c4ecp_ecp_only_example). ---- *)
+From BSE Require Import Model.Genbas Proofs.GenbasDefs Model.GenbasEcp Proofs.GenbasEcpDefs.
+From BSE Require Proofs.GenbasSpec Proofs.GenbasEcpSpec.
+
+Theorem cfour_write_total : c4_write_total_stmt.
+Proof. exact GenbasSpec.c4_write_total. Qed.
+Print Assumptions cfour_write_total.
+
+Theorem cfour_roundtrip : c4_roundtrip_stmt.
+Proof. exact GenbasSpec.c4_roundtrip_exact. Qed.
+Print Assumptions cfour_roundtrip.
+
+Theorem cfour_no_number_lost : c4_no_number_lost_stmt.
+Proof. exact GenbasSpec.c4_no_number_lost. Qed.
+Print Assumptions cfour_no_number_lost.
+
+Theorem cfour_description_hash_refuted : c4_roundtrip_desc_hash_stmt.
+Proof. exact GenbasSpec.c4_roundtrip_desc_hash. Qed.
+Print Assumptions cfour_description_hash_refuted.
+
+Theorem cfour_without_ecp_whole_file : c4ecp_roundtrip_no_ecp_stmt.
+Proof. exact GenbasEcpSpec.c4ecp_roundtrip_no_ecp. Qed.
+Print Assumptions cfour_without_ecp_whole_file.
+
+Theorem cfour_ecp_momentum_range : c4ecp_range_stmt.
+Proof. exact GenbasEcpSpec.c4ecp_range. Qed.
+Print Assumptions cfour_ecp_momentum_range.
+
+Theorem cfour_ecp_only_unreadable : c4ecp_ecp_only_example_stmt.
+Proof. exact GenbasEcpSpec.c4ecp_ecp_only_example. Qed.
+Print Assumptions cfour_ecp_only_unreadable.
+
+Example cfour_example : c4_example_stmt.
+Proof. exact GenbasSpec.c4_example. Qed.
+
+Example cfour_ecp_example : c4ecp_example_stmt.
+Proof. exact GenbasEcpSpec.c4ecp_example. Qed.
+
+(* ---- Molpro (Model/Molpro.v), electron part; the reader's regular expressions are modelled by a backtracking matcher with Perl priorities.  Exact for momenta 0..7; l >= 8 is dropped silently (mpro_high_am: the recorded known finding as a theorem); only the zeros outside the first..last non-zero coefficient of a contraction are left out and come back spelled 0.0 (mpro_find_range). ---- *)
+From BSE Require Import Model.Molpro Proofs.MolproDefs.
+From BSE Require Proofs.MolproSpec.
+
+Theorem molpro_write_total : mpro_write_total_stmt.
+Proof. exact MolproSpec.mpro_write_total. Qed.
+Print Assumptions molpro_write_total.
+
+Theorem molpro_roundtrip : mpro_roundtrip_stmt.
+Proof. exact MolproSpec.mpro_roundtrip_exact. Qed.
+Print Assumptions molpro_roundtrip.
+
+Theorem molpro_only_outer_zeros_left_out : mpro_find_range_stmt.
+Proof. exact MolproSpec.mpro_find_range. Qed.
+Print Assumptions molpro_only_outer_zeros_left_out.
+
+Theorem molpro_no_number_lost : mpro_no_number_lost_stmt.
+Proof. exact MolproSpec.mpro_no_number_lost. Qed.
+Print Assumptions molpro_no_number_lost.
+
+Theorem molpro_high_momenta_refuted : mpro_high_am_stmt.
+Proof. exact MolproSpec.mpro_high_am. Qed.
+Print Assumptions molpro_high_momenta_refuted.
+
+Theorem molpro_cartesian_tag_lost : mpro_cartesian_stmt.
+Proof. exact MolproSpec.mpro_cartesian. Qed.
+Print Assumptions molpro_cartesian_tag_lost.
+
+Example molpro_example : mpro_example_stmt.
+Proof. exact MolproSpec.mpro_example. Qed.
+
+(* ---- deMon2k (Model/Demon2k.v, Model/Demon2kEcp.v).  The full round-trip statement of the electron part is FALSE for every well-formed input (d2k_roundtrip_false, d2k_roundtrip_noend): the writer prints END only when some element has an ECP and the reader refuses a text without it; with the END line added by hand the electron part is exact (d2k_roundtrip_partial).  The whole file with ECPs round-trips exactly for contiguous ECP momenta (d2k_all_roundtrip), and d2k_all_roundtrip_gen says what comes back otherwise: the highest potential is renumbered to (number of potentials - 1) - the recorded known finding demon2k ecp:am-gap as a theorem. ---- *)
+From BSE Require Import Model.Demon2k Proofs.Demon2kDefs Model.Demon2kEcp Proofs.Demon2kEcpDefs.
+From BSE Require Proofs.Demon2kSpec Proofs.Demon2kEcpSpec.
+
+Theorem demon2k_write_total : d2k_write_total_stmt.
+Proof. exact Demon2kSpec.d2k_write_total. Qed.
+Print Assumptions demon2k_write_total.
+
+Theorem demon2k_without_ecp_unreadable : d2k_roundtrip_noend_stmt.
+Proof. exact Demon2kSpec.d2k_roundtrip_noend. Qed.
+Print Assumptions demon2k_without_ecp_unreadable.
+
+Theorem demon2k_roundtrip_partial : d2k_roundtrip_partial_stmt.
+Proof. exact Demon2kSpec.d2k_roundtrip_partial. Qed.
+Print Assumptions demon2k_roundtrip_partial.
+
+Theorem demon2k_no_number_lost : d2k_no_number_lost_stmt.
+Proof. exact Demon2kSpec.d2k_no_number_lost. Qed.
+Print Assumptions demon2k_no_number_lost.
+
+Theorem demon2k_accepted_electron_counts : d2k_nelec_values_stmt.
+Proof. exact Demon2kSpec.d2k_nelec_values_exact. Qed.
+Print Assumptions demon2k_accepted_electron_counts.
+
+Theorem demon2k_whole_file_roundtrip : d2k_all_roundtrip_stmt.
+Proof. exact Demon2kEcpSpec.d2k_all_roundtrip_exact. Qed.
+Print Assumptions demon2k_whole_file_roundtrip.
+
+Theorem demon2k_what_comes_back : d2k_all_roundtrip_gen_stmt.
+Proof. exact Demon2kEcpSpec.d2k_all_roundtrip_gen. Qed.
+Print Assumptions demon2k_what_comes_back.
+
+Theorem demon2k_ecp_gap_refuted : d2k_ecp_gap_counterexample_stmt.
+Proof. exact Demon2kEcpSpec.d2k_ecp_gap_counterexample. Qed.
+Print Assumptions demon2k_ecp_gap_refuted.
+
+Theorem demon2k_ecp_no_number_lost : d2k_ecp_no_number_lost_stmt.
+Proof. exact Demon2kEcpSpec.d2k_ecp_no_number_lost. Qed.
+Print Assumptions demon2k_ecp_no_number_lost.
+
+Example demon2k_example : d2k_example_stmt.
+Proof. exact Demon2kSpec.d2k_example. Qed.
+
+Example demon2k_ecp_example : d2k_ecp_example_stmt.
+Proof. exact Demon2kEcpSpec.d2k_ecp_example. Qed.
+
 (* ---- the whole Gaussian94 file: electron blocks + ECP blocks (Model/G94Ecp.v).  The reader takes the momenta of the potentials
    from the `-ECP lmax nelec` line and the ORDER of the blocks, never from their titles: the round trip holds exactly when the
    momenta are [L, 0, ..., L-1] for L+1 potentials.  (Imported last: the record G94Ecp.gpot shares its field names with
